@@ -148,6 +148,15 @@ CHECKS = {
           "tainted (one execution covers all secret values along its path): any conditional jump or address computed from a secret is a violation with the op line as replay; branches on explicitly public results "
           "(verification status, identity-result errors, scalarmult status) are allowed only in the named wrapper frames. Block functions, field arithmetic and hardware-AES code have no Lean leakage model: for them the taint run alone decides."),
     note=NOTE_COMMON + "memcheck cannot run AVX-512 (masked); software-AES AEGIS fallback is outside the property's list and skipped; timing of individual instructions is out of scope."),
+ "C12": dict(
+    category="proof", design_ref="DESIGN.md §3.12",
+    technique="Lean 4 theorems (buffer-index invariants of the SHA-2 / BLAKE2b / Poly1305 / HMAC streaming states for every chunk sequence, capacity and in-bounds theorems of codecs and padding, the table of documented size limits with refusal theorems tied to the models) + correspondence: in-C sweeps of every API family with exact-size buffers at every alignment offset / against guard pages, under ASan+UBSan and plain builds on every backend, digests compared across builds; limit probes answered by the Lean limits table",
+    text=("PARTIAL BY NATURE. Proved for every sequence of update chunks: the pending-byte index of the SHA-256/512, BLAKE2b, Poly1305 and HMAC states stays inside its array; codecs never write past the capacity and need exactly the documented output size; "
+          "pad / unpad touch only in-bounds indices; the IETF counter guard, generichash / KDF / HKDF range checks and 97 documented size limits refuse exactly the out-of-range arguments. The code is tied to this by sweeping every public API family "
+          "(13 families) inside C over lengths past every internal block size, with every input and output buffer of exact documented size placed at alignment offsets 0..63 (ASan-poisoned prefix / canaries), ending at or starting after a PROT_NONE page, "
+          "NULL at length 0, with mostly-valid and mutated contents, on native / portable builds and the whole CPU-feature mask chain, plain and ASan+UBSan; any sanitizer report, fault, canary corruption or digest difference is bisected to a single length. "
+          "Limit probes (at and just beyond every *_MAX / *_MIN) run in a forked child and are compared with the Lean table. Functions without a Lean model (SIMD kernels, field arithmetic) are covered by the sweep only."),
+    note=NOTE_COMMON + "UBSan alignment and nonnull-attribute checks are disabled (they fire on the unchanged tree: type-punned SIMD loads, explicit_bzero(NULL,0)); hand-written assembly is covered by the guard-page placements only; addresses formed from an out-of-limit length before the guard refuses the call (UBSan pointer-overflow) are counted in the evidence, not reported."),
  "C19": dict(
     category="proof", design_ref="DESIGN.md §3.19",
     technique="Lean 4 theorems over a labelled-transition-system model of the sodium_init lock protocol (inductive invariant over every schedule of every number of threads: init_once, init_safety, no_deadlock, init_completes) + correspondence: N-thread barrier races of the real sodium_init and a mixed workload compared with the model and the sequential run; ThreadSanitizer happens-before runs and a classified table of writable globals for the race-freedom half",
